@@ -5,3 +5,4 @@ pub mod c09e;
 pub mod c20;
 pub mod c06;
 pub mod c10;
+pub mod c04t;
